@@ -134,7 +134,7 @@ def nontrivial(case, il):
 
 def gen_random(tier, seed):
     rng = Rng(seed * 7 + 7)
-    n = 400 if tier == "quick" else 12000
+    n = 1500 if tier == "quick" else 12000
     cases = []
     w = {"violation": 6, "open": 8, "consume": 6, "deliver": 8, "client_conn_close": 0.2, "server_conn_close": 0.2, "throttle": 0.2, "poll": 0.5}
     for i in range(n):
